@@ -1020,7 +1020,8 @@ fn c09(ctx: &mut Ctx) -> Option<Failure> {
         }
     }
     // codes
-    let codes: Vec<i32> = vec![i32::MIN, -1, 0, 1, 47, 48, 57, 58, 0xD800, 0xFFFD, 0x2FFFE, 0x2FFFF, 0x30000, i32::MAX];
+    // boundaries, surrogates, and characters that Unicode (not SMT-LIB) counts as numeric
+    let codes: Vec<i32> = vec![i32::MIN, -1, 0, 1, 47, 48, 57, 58, 0xB2, 0xBD, 0x0660, 0x0663, 0x0669, 0x2160, 0xFF10, 0xFF19, 0xD7FF, 0xD800, 0xDBFF, 0xDC00, 0xDFFF, 0xE000, 0xFFFD, 0x10FFFF, 0x110000, 0x2FFFE, 0x2FFFF, 0x30000, i32::MAX];
     for x in codes {
         let r = ctx.case(|| {
             let f = str_from_code(x);
